@@ -67,7 +67,7 @@ def install(w):
             ],
             result=NoneType,
             modifies=["self._duck_conn", "self._is_closed", "self.database", "self.schema", "self.database_set", "self.schema_set", "self.db_path", "self.nop_regexes", "self._paramstyle", "self.variables",
-                      "$ghost:$cats", "$ghost:$schemas", "$ghost:$files", "$ghost:$boot", "$ghost:$macros", "$ghost:$search", "$ghost:$dlast", "$ghost:$trace_n", "$ghost:$trace", "$ghost:$trace_c", "$ghost:$tres", "*._variables"],
+                      "$ghost:$cats", "$ghost:$schemas", "$ghost:$files", "$ghost:$boot", "$ghost:$macros", "$ghost:$search", "$ghost:$dlast", "$ghost:$trace_n", "$ghost:$trace", "$ghost:$trace_c", "$ghost:$tres"],
             ensures={
                 # names reported upper-cased either way
                 "C14.names": f"self.database == {D} and self.schema == {S}",
@@ -94,5 +94,89 @@ def install(w):
             },
             props=["C14", "C03", "C01", "C08", "C15", "C16", "C13", "C07"],
             locals={"$asserts": "raise", "$sql_templates_only": True},
+        )
+    )
+
+
+def install_methods(w):
+    import duckdb
+    import snowflake.connector.cursor as sfcur
+
+    import fakesnow.conn
+    import fakesnow.cursor
+    import fakesnow.instance
+
+    Conn = fakesnow.conn.FakeSnowflakeConnection
+    Cur = fakesnow.cursor.FakeSnowflakeCursor
+    FS = fakesnow.instance.FakeSnow
+    Duck = duckdb.DuckDBPyConnection
+    MC = "fakesnow.cursor.FakeSnowflakeCursor."
+    MN = "fakesnow.conn.FakeSnowflakeConnection."
+    cur_fields = ["self._conn", "self._duck_conn", "self._use_dict_result", "self._last_sql", "self._last_params", "self._sqlstate", "self._arraysize",
+                  "self._arrow_table", "self._arrow_table_fetch_index", "self._rowcount", "self._converter"]
+    w.add_contract(
+        Contract(
+            MC + "__init__",
+            params={"self": Cur, "conn": Conn, "duck_conn": Duck, "use_dict_result": (bool, False)},
+            requires=[],
+            result=NoneType,
+            modifies=cur_fields,
+            ensures={
+                "C05.cursor.init": "self._conn is conn and self._duck_conn is duck_conn and self._use_dict_result == use_dict_result and self._arrow_table is None "
+                "and self._arrow_table_fetch_index is None and self._rowcount is None and self._arraysize == 1 and self._sqlstate is None and self._last_sql is None and self._last_params is None",
+            },
+            props=["C05", "C03", "C13"],
+        )
+    )
+    w.add_contract(Contract(MC + "__enter__", params={"self": Cur}, requires=[], result=Cur, modifies=[], pure=True, ensures={"C06.enter": "result is self"}, props=["C06"]))
+    w.add_contract(Contract(MC + "__exit__", params={"self": Cur, "exc_type": None, "exc_value": None, "traceback": None}, requires=[], result=NoneType, modifies=[], pure=True, ensures={"C06.exit": "True"}, props=["C06"]))
+    w.add_contract(
+        Contract(
+            MN + "cursor",
+            params={"self": Conn, "cursor_class": (None, sfcur.SnowflakeCursor)},
+            requires=[],
+            result=Cur,
+            fresh_result=True,
+            modifies=[],
+            ensures={
+                # C03 / C13: every cursor of a connection works on that connection's own DuckDB connection and context
+                "C13.cursor.shares_connection": "result._conn is self and result._duck_conn is self._duck_conn",
+                "C05.cursor.fresh": "result._arrow_table is None and result._arrow_table_fetch_index is None and result._rowcount is None and result._arraysize == 1 and result._last_sql is None",
+                "C05.cursor.kind": "result._use_dict_result == (cursor_class is snowflake.connector.cursor.DictCursor)",
+            },
+            props=["C03", "C13", "C05"],
+        )
+    )
+    w.add_contract(
+        Contract(
+            MN + "close",
+            params={"self": Conn, "retry": (bool, True)},
+            requires=[],
+            result=NoneType,
+            modifies=["self._is_closed", "$ghost:$closed"],
+            ensures={"C07.close": "self._is_closed and duck_closed(self._duck_conn)"},
+            props=["C07"],
+        )
+    )
+    w.add_contract(
+        Contract(
+            "fakesnow.instance.FakeSnow.connect",
+            params={"self": FS, "database": (Opt(str), None), "schema": (Opt(str), None)},
+            requires=["not duck_closed(self.duck_conn)",
+                      "implies(bool(database), implies(cat_exists(upper(database)), schema_exists(upper(database), 'MAIN') and schema_exists(upper(database), 'INFORMATION_SCHEMA')))"],
+            result=Conn,
+            fresh_result=True,
+            modifies=[m for m in w.contracts[MN + "__init__"].modifies if m.startswith("$ghost:")] + ["$ghost:$closed"],
+            ensures={
+                # C03 / C13: each connect gets its own DuckDB connection object (search path and transaction of its own) on the shared instance
+                "C03.own_cursor": "is_fresh(result._duck_conn) and result._duck_conn is not self.duck_conn and duck_parent(result._duck_conn) is self.duck_conn",
+                # C14: the instance's options reach the connection unchanged
+                "C14.plumbing.names": "result.database == (database and upper(database)) and result.schema == (schema and upper(schema))",
+                "C14.plumbing.nop": "result.nop_regexes is self.nop_regexes",
+                "C14.plumbing.context": "result.database_set == (bool(database) and cat_exists(upper(database))) and result.schema_set == (bool(database) and bool(schema) and schema_exists(upper(database), upper(schema)))",
+                "C14.plumbing.creates": "implies(bool(database), cat_exists(upper(database)) == (old(cat_exists(upper(database))) or self.create_database_on_connect))",
+                "C15.per_connection": "is_fresh(result.variables)",
+            },
+            props=["C03", "C13", "C14", "C15"],
         )
     )
